@@ -429,8 +429,9 @@ class LatticeColumn:
             # Values that only differ by rounding are also ties (e.g. the two directions of the same
             # road give the same probability up to the last bits, which ones depends on the scale of
             # the coordinates).
-            while cur_width < len(ms) and approx_equal(ms[cur_width].prune_value, m_last.prune_value,
-                                                       rtol=1e-9, atol=1e-12):
+            while cur_width < len(ms) and (ms[cur_width].prune_value == m_last.prune_value or
+                                           approx_equal(ms[cur_width].prune_value, m_last.prune_value,
+                                                        rtol=1e-9, atol=1e-12)):
                 m_last = ms[cur_width]
                 cur_width += 1
             if prune_thr is not None:
